@@ -10,6 +10,15 @@
      normalize_networkx_labels + Graph/DirectedGraph/BipartiteGraph.from_networkx   gio_from_nx, gio_bip_from_nx
    Outcomes are explicit: GOk value | GRaise exception-class, in the order the Python code raises.
 
+   Two revisions of the code are modelled.  The functions without suffix follow the CURRENT code
+   (after the repairs bb735e1, 11330db, 1f39172, 733c3b6); the functions with suffix _as_found follow
+   the code before these four commits.  They differ in exactly four places, selected by the boolean
+   [af] ("as found") of the _gen functions:
+     D6  next(parser) of the kthlist readers      StopIteration is turned into ValueError | escapes
+     D7  blank line in the DIMACS reader          skipped                                  | l[0] raises IndexError
+     D8  `previous` of the bipartite kthlist loop set to the left vertex of each row       | stays 0
+     D9  dot node labels                          int(v) when every label is an integer    | decimal strings
+
    Abstracted:
    * a graph object is (kind, name, order(s), edge list in the iteration order of G.edges()):
      lexicographically sorted, duplicate free, (min,max) for simple graphs.  Sorted adjacency
@@ -150,18 +159,28 @@ Fixpoint gio_kth_name (ls : list gt_str) : gt_str :=
     end
   end.
 
-(* next(parser): run to the first yield *)
-Fixpoint gio_kth_header (ls : list gt_str) : gio_res (Z * list gt_str) :=
+(* next(parser): run the generator to its first yield; an exhausted generator raises StopIteration *)
+Fixpoint gio_kth_next (ls : list gt_str) : gio_res (Z * list gt_str) :=
   match ls with
   | [] => GRaise EStopIteration
   | l :: t =>
     match gio_kth_line (-1) l with
     | GRaise e => GRaise e
-    | GOk KISkip => gio_kth_header t
+    | GOk KISkip => gio_kth_next t
     | GOk (KISize n) => GOk (n, t)
     | GOk (KIAdj _ _) => GRaise EValueError        (* size, name = <3-tuple> *)
     end
   end.
+
+(* try: size, name = next(parser)  except StopIteration: raise ValueError(...)
+   as found: no try, StopIteration escapes (D6) *)
+Definition gio_kth_header_gen (af : bool) (ls : list gt_str) : gio_res (Z * list gt_str) :=
+  match gio_kth_next ls with
+  | GRaise EStopIteration => if af then GRaise EStopIteration else GRaise EValueError
+  | r => r
+  end.
+Definition gio_kth_header := gio_kth_header_gen false.
+Definition gio_kth_header_as_found := gio_kth_header_gen true.
 
 (* _read_nonbipartite_kthlist: the loop over the remaining items *)
 Fixpoint gio_kth_body (size : Z) (ls : list gt_str) (previous : Z) (G : iograph) : gio_res iograph :=
@@ -179,11 +198,13 @@ Fixpoint gio_kth_body (size : Z) (ls : list gt_str) (previous : Z) (G : iograph)
     end
   end.
 
-Definition gio_read_kth (k : gio_kind) (text : gt_str) : gio_res iograph :=
+Definition gio_read_kth_gen (af : bool) (k : gio_kind) (text : gt_str) : gio_res iograph :=
   let ls := gt_lines text in
-  gio_bind (gio_kth_header ls) (fun hd =>
+  gio_bind (gio_kth_header_gen af ls) (fun hd =>
   gio_bind (gio_new k (gio_kth_name ls) (fst hd) 0) (fun G =>
   gio_kth_body (fst hd) (snd hd) 0 G)).
+Definition gio_read_kth := gio_read_kth_gen false.
+Definition gio_read_kth_as_found := gio_read_kth_gen true.
 
 (* dict assignment edges[left] = right *)
 Fixpoint gio_dict_set (k : Z) (v : list Z) (d : list (Z * list Z)) : list (Z * list Z) :=
@@ -199,23 +220,24 @@ Fixpoint gio_kthb_scan (rgt : list Z) (lo hi : Z) : option Z :=
   | v :: t => if v <? lo then None else gio_kthb_scan t lo (Z.min hi (v - 1))
   end.
 
-(* _read_bipartite_kthlist: `previous` stays 0 for the whole loop *)
-Fixpoint gio_kthb_body (size : Z) (ls : list gt_str) (lo hi : Z) (d : list (Z * list Z))
+(* _read_bipartite_kthlist, the loop: `previous = left` at the end of each round
+   (as found: the assignment is missing and `previous` stays 0 for the whole loop, D8) *)
+Fixpoint gio_kthb_body_gen (af : bool) (size : Z) (ls : list gt_str) (previous lo hi : Z) (d : list (Z * list Z))
   : gio_res (Z * list (Z * list Z)) :=
   match ls with
   | [] => GOk (lo, d)
   | l :: t =>
     match gio_kth_line size l with
     | GRaise e => GRaise e
-    | GOk KISkip => gio_kthb_body size t lo hi d
+    | GOk KISkip => gio_kthb_body_gen af size t previous lo hi d
     | GOk (KISize _) => GRaise EValueError
     | GOk (KIAdj lft rgt) =>
-      if lft <=? 0 then GRaise EValueError
+      if lft <=? previous then GRaise EValueError
       else if lft >? hi then GRaise EValueError
       else let lo' := Z.max lo (lft + 1) in
            match gio_kthb_scan rgt lo' hi with
            | None => GRaise EValueError
-           | Some hi' => gio_kthb_body size t lo' hi' (gio_dict_set lft rgt d)
+           | Some hi' => gio_kthb_body_gen af size t (if af then previous else lft) lo' hi' (gio_dict_set lft rgt d)
            end
     end
   end.
@@ -223,25 +245,28 @@ Fixpoint gio_kthb_body (size : Z) (ls : list gt_str) (lo hi : Z) (d : list (Z * 
 Definition gio_dict_edges (L : Z) (d : list (Z * list Z)) : list (Z * Z) :=
   flat_map (fun kv => map (fun v => (fst kv, v - L)) (snd kv)) d.
 
-Definition gio_read_kthb (text : gt_str) : gio_res iograph :=
+Definition gio_read_kthb_gen (af : bool) (text : gt_str) : gio_res iograph :=
   let ls := gt_lines text in
-  gio_bind (gio_kth_header ls) (fun hd =>
+  gio_bind (gio_kth_header_gen af ls) (fun hd =>
   let size := fst hd in
-  gio_bind (gio_kthb_body size (snd hd) 1 size []) (fun st =>
+  gio_bind (gio_kthb_body_gen af size (snd hd) 0 1 size []) (fun st =>
   let L := fst st - 1 in
   let R := size - fst st + 1 in
   gio_bind (gio_new GioBipartite (gio_kth_name ls) L R) (fun G =>
   gio_add_edges G (gio_dict_edges L (snd st))))).
+Definition gio_read_kthb := gio_read_kthb_gen false.
+Definition gio_read_kthb_as_found := gio_read_kthb_gen true.
 
 (* ---------- dimacs ---------- *)
 Record gio_dstate := mkDS { ds_G : option iograph; ds_name : gt_str; ds_m : Z; ds_cnt : Z }.
 
 Definition gio_edge_word : gt_str := [gt_e; gt_d; gt_g; gt_e].
 
-Definition gio_dimacs_line (k : gio_kind) (st : gio_dstate) (raw : gt_str) : gio_res gio_dstate :=
+Definition gio_dimacs_line_gen (af : bool) (k : gio_kind) (st : gio_dstate) (raw : gt_str) : gio_res gio_dstate :=
   let l := gt_strip raw in
   match l with
-  | [] => GRaise EIndexError                       (* l[0] of a blank line *)
+  | [] => if af then GRaise EIndexError            (* as found: l[0] of a blank line (D7) *)
+          else GOk st                              (* if len(l) == 0: continue *)
   | c :: _ =>
     if Ascii.eqb c gt_c then GOk (mkDS (ds_G st) (ds_name st ++ skipn 2 l) (ds_m st) (ds_cnt st))
     else if Ascii.eqb c gt_p then
@@ -287,19 +312,21 @@ Definition gio_dimacs_line (k : gio_kind) (st : gio_dstate) (raw : gt_str) : gio
     else GOk st                                    (* any other line is ignored *)
   end.
 
-Fixpoint gio_dimacs_loop (k : gio_kind) (st : gio_dstate) (ls : list gt_str) : gio_res gio_dstate :=
+Fixpoint gio_dimacs_loop_gen (af : bool) (k : gio_kind) (st : gio_dstate) (ls : list gt_str) : gio_res gio_dstate :=
   match ls with
   | [] => GOk st
-  | l :: t => gio_bind (gio_dimacs_line k st l) (fun st' => gio_dimacs_loop k st' t)
+  | l :: t => gio_bind (gio_dimacs_line_gen af k st l) (fun st' => gio_dimacs_loop_gen af k st' t)
   end.
 
-Definition gio_read_dimacs (k : gio_kind) (text : gt_str) : gio_res iograph :=
-  gio_bind (gio_dimacs_loop k (mkDS None [] (-1) 0) (gt_lines text)) (fun st =>
+Definition gio_read_dimacs_gen (af : bool) (k : gio_kind) (text : gt_str) : gio_res iograph :=
+  gio_bind (gio_dimacs_loop_gen af k (mkDS None [] (-1) 0) (gt_lines text)) (fun st =>
   if negb (ds_m st =? ds_cnt st) then GRaise EValueError
   else match ds_G st with
        | Some G => GOk G
        | None => GRaise EValueError                (* not reachable: m = -1 <> m_cnt *)
        end).
+Definition gio_read_dimacs := gio_read_dimacs_gen false.
+Definition gio_read_dimacs_as_found := gio_read_dimacs_gen true.
 
 (* ---------- matrix ---------- *)
 (* what scan_integer delivers: the integers of the non comment lines; a line with a non numeric
@@ -402,12 +429,12 @@ Definition gio_supported (has_dot : bool) (t : gio_gtype) : list gio_fmt :=
 Definition gio_kind_of (t : gio_gtype) : gio_kind :=
   match t with TSimple => GioSimple | TBipartite => GioBipartite | _ => GioDirected end.
 
-Definition gio_read_graph (has_dot : bool) (t : gio_gtype) (f : gio_fmt) (text : gt_str) : gio_res iograph :=
+Definition gio_read_graph_gen (af : bool) (has_dot : bool) (t : gio_gtype) (f : gio_fmt) (text : gt_str) : gio_res iograph :=
   if negb (existsb (gio_fmt_eqb f) (gio_supported has_dot t)) then GRaise EValueError
   else
     gio_bind (match f with
-              | FKthlist => match t with TBipartite => gio_read_kthb text | _ => gio_read_kth (gio_kind_of t) text end
-              | FDimacs => gio_read_dimacs (gio_kind_of t) text
+              | FKthlist => match t with TBipartite => gio_read_kthb_gen af text | _ => gio_read_kth_gen af (gio_kind_of t) text end
+              | FDimacs => gio_read_dimacs_gen af (gio_kind_of t) text
               | FMatrix => gio_read_matrix text
               | _ => GRaise ENotModelled
               end)
@@ -415,6 +442,8 @@ Definition gio_read_graph (has_dot : bool) (t : gio_gtype) (f : gio_fmt) (text :
                        | TDag => if gio_is_dag G then GOk G else GRaise EValueError
                        | _ => GOk G
                        end).
+Definition gio_read_graph := gio_read_graph_gen false.
+Definition gio_read_graph_as_found := gio_read_graph_gen true.
 
 Definition gio_write_graph (has_dot : bool) (t : gio_gtype) (f : gio_fmt) (G : iograph) : gio_res gt_str :=
   if negb (existsb (gio_fmt_eqb f) (gio_supported has_dot t)) then GRaise EValueError
@@ -461,12 +490,41 @@ Definition gio_from_nx {A} (ltb eqb : A -> A -> bool) (k : gio_kind) (name : gt_
   | Some es => Some (gio_bind (gio_new k name (Z.of_nat (length nodes)) 0) (fun G => gio_add_edges G es))
   end.
 
-(* what to_networkx + write_dot + read_dot hand to from_networkx: decimal strings as labels *)
+(* readGraph, dot branch, after read_dot (node names are str):
+     try:    G = networkx.relabel_nodes(G, {v: int(v) for v in G.nodes()})
+     except ValueError: pass
+     G = graph_class.normalize(G)
+   When EVERY label is accepted by int() the labels become integers (labels with the same value are merged
+   into one node, in the position of the first of them) and are sorted as numbers; when one label is not
+   an integer nothing is relabelled and the labels are sorted as strings.
+   None: an edge mentions a node that is not in the node list (not a networkx graph). *)
+Fixpoint gio_nodup_Z (l : list Z) : list Z :=
+  match l with
+  | [] => []
+  | x :: t => x :: filter (fun y => negb (y =? x)) (gio_nodup_Z t)
+  end.
+Definition gio_dot_normalize (k : gio_kind) (name : gt_str) (nodes : list gt_str) (edges : list (gt_str * gt_str))
+  : option (gio_res iograph) :=
+  match gt_ints nodes with
+  | Some zs =>
+    match gt_ints (map fst edges), gt_ints (map snd edges) with
+    | Some us, Some vs => gio_from_nx Z.ltb Z.eqb k name (gio_nodup_Z zs) (combine us vs)
+    | _, _ => None
+    end
+  | None => gio_from_nx gt_str_ltb gt_str_eqb k name nodes edges
+  end.
+(* as found (D9): no relabelling, decimal strings are sorted as strings *)
+Definition gio_dot_normalize_as_found (k : gio_kind) (name : gt_str) (nodes : list gt_str) (edges : list (gt_str * gt_str))
+  : option (gio_res iograph) := gio_from_nx gt_str_ltb gt_str_eqb k name nodes edges.
+
+(* what to_networkx + write_dot + read_dot hand to that step: decimal strings as labels *)
 Definition gio_dot_nodes (n : Z) : list gt_str := map gt_print_Z (gt_range1 n).
 Definition gio_dot_edges (es : list (Z * Z)) : list (gt_str * gt_str) :=
   map (fun e => (gt_print_Z (fst e), gt_print_Z (snd e))) es.
 Definition gio_dot_roundtrip (G : iograph) : option (gio_res iograph) :=
-  gio_from_nx gt_str_ltb gt_str_eqb (io_kind G) (io_name G) (gio_dot_nodes (io_n G)) (gio_dot_edges (io_edges G)).
+  gio_dot_normalize (io_kind G) (io_name G) (gio_dot_nodes (io_n G)) (gio_dot_edges (io_edges G)).
+Definition gio_dot_roundtrip_as_found (G : iograph) : option (gio_res iograph) :=
+  gio_dot_normalize_as_found (io_kind G) (io_name G) (gio_dot_nodes (io_n G)) (gio_dot_edges (io_edges G)).
 (* gml: the reader is called with label='id'; ids are the integers 0..n-1 *)
 Definition gio_gml_roundtrip (G : iograph) : option (gio_res iograph) :=
   gio_from_nx Z.ltb Z.eqb (io_kind G) (io_name G) (map (fun v => v - 1) (gt_range1 (io_n G)))
@@ -495,3 +553,23 @@ Definition gio_bip_from_nx {A} (eqb : A -> A -> bool) (name : gt_str)
            | _, _ => GRaise EValueError              (* KeyError is not reachable for nodes of G *)
            end
        end) B edges).
+
+(* readGraph, dot branch, bipartite type: the same relabelling, then BipartiteGraph.normalize; relabel_nodes
+   keeps the node order and the 'bipartite' attributes.  None: outside the model (two labels with the same
+   integer value are merged by networkx; an edge endpoint that is not an integer although all nodes are). *)
+Fixpoint gio_nodupb_Z (l : list Z) : bool :=
+  match l with
+  | [] => true
+  | x :: t => negb (existsb (Z.eqb x) t) && gio_nodupb_Z t
+  end.
+Definition gio_dot_bip_normalize (name : gt_str) (nodes : list (gt_str * Z)) (edges : list (gt_str * gt_str))
+  : option (gio_res iograph) :=
+  match gt_ints (map fst nodes) with
+  | Some zs =>
+    match gt_ints (map fst edges), gt_ints (map snd edges) with
+    | Some us, Some vs =>
+      if gio_nodupb_Z zs then Some (gio_bip_from_nx Z.eqb name (combine zs (map snd nodes)) (combine us vs)) else None
+    | _, _ => None
+    end
+  | None => Some (gio_bip_from_nx gt_str_eqb name nodes edges)
+  end.
